@@ -58,12 +58,23 @@ func checkWrap(c WrapCase) error {
 	for i := c.N - 1; i >= 0; i-- {
 		want = append(want, "/"+strconv.Itoa(i))
 	}
-	h := httputil.Wrap(http.HandlerFunc(func(http.ResponseWriter, *http.Request) { trace = append(trace, "h") }), mws...)
-	for rep := 0; rep < 2; rep++ {
-		trace = nil
-		h.ServeHTTP(httptest.NewRecorder(), httptest.NewRequest("GET", "/", nil))
-		if !slices.Equal(trace, want) {
-			return fmt.Errorf("Wrap with %d middlewares: trace %v, want %v", c.N, trace, want)
+	// The same middleware slice is used for several Wrap calls (a common
+	// stack for all routes): every resulting chain must have the same order
+	// and the caller's slice must be left alone.
+	snapshot := slices.Clone(mws)
+	for call := 0; call < 3; call++ {
+		h := httputil.Wrap(http.HandlerFunc(func(http.ResponseWriter, *http.Request) { trace = append(trace, "h") }), mws...)
+		for i := range mws {
+			if mws[i] != snapshot[i] {
+				return fmt.Errorf("Wrap call #%d with %d middlewares modified the caller's slice at index %d", call+1, c.N, i)
+			}
+		}
+		for rep := 0; rep < 2; rep++ {
+			trace = nil
+			h.ServeHTTP(httptest.NewRecorder(), httptest.NewRequest("GET", "/", nil))
+			if !slices.Equal(trace, want) {
+				return fmt.Errorf("Wrap call #%d with the same %d-middleware slice: trace %v, want %v", call+1, c.N, trace, want)
+			}
 		}
 	}
 	vp.Class(fmt.Sprintf("wrap:%d-middlewares", c.N))
